@@ -1,6 +1,8 @@
 import P2PVerif.Model.KeWorld
 import P2PVerif.Lemmas.KeChan
 import P2PVerif.Lemmas.KeConv
+import P2PVerif.Model.KeTimed
+import P2PVerif.Lemmas.KeTimed
 /-! # C07 — channels establish, converge and keep working across rotation and restart
 Property theorems only, about the channel model (`Model/P2PKE.lean`) with time as an explicit input. -/
 namespace P2PVerif.C07
@@ -57,5 +59,86 @@ theorem tie_break_converges (kA kB : KeyId) (ra ka ht : Nat) (lt : IdLt) (tA tB 
 theorem convergence_partial (kA kB : KeyId) (ra ka ht : Nat) (lt : IdLt) (t0 : Nat) (p : Bytes) :
     P2PKE.EstablishFresh kA kB ra ka ht lt t0 p ∧ P2PKE.EstablishAfterRestart kA kB ra ka ht lt t0 p :=
   ⟨P2PKE.establish_fresh kA kB ra ka ht lt t0 p, P2PKE.establish_after_restart kA kB ra ka ht lt t0 p⟩
+
+/-! ## the channel with its timers (`Model/KeTimed.lean`)
+
+`TSt.run` interleaves application and network operations, the passing of time and the two timer callbacks in any
+order; a callback is enabled once its deadline has passed and may run arbitrarily late. -/
+
+/-- ⊢ never stranded: in every reachable state, whatever was lost, reordered, refused or restarted and however
+    late the timer callbacks ran, a channel on which callers wait for a session has no current session and has a
+    timer armed that will act for them — the rekey timer (it initiates), or the handshake timer together with a
+    prospective session (it retransmits it and gives it up after the time-out, which starts over). -/
+theorem never_stranded (key : KeyId) (accept : KeyId → Bool) (rj ka ra bo : Nat) (lt : IdLt) (ops : List TOp) :
+    ((TSt.mk (TChan.fresh key accept rj ka ra bo) 0).run lt ops).t.NotStranded :=
+  P2PKE.never_stranded key accept rj ka ra bo lt ops
+
+/-- ⊢ what the handshake timer retransmits is alive: after the callback ran at `now`, a prospective session that
+    is still there has not passed its reject time and is no older than the handshake time-out. -/
+theorem prospective_is_live (t : TChan) (now : Nat) (e : Entry) :
+    (t.fireHs now).1.chan.next = some e →
+    now ≤ e.sess.expiresAt ∧ now - (e.sess.expiresAt - t.chan.rejectAfter) ≤ t.chan.hsTimeout :=
+  P2PKE.prospective_is_live t now e
+
+/-- ⊢ giving up starts over: when the handshake callback drops the prospective session (`next` was there before
+    and is gone afterwards) and it was the channel's own attempt, or callers are waiting and there is no current
+    session, the rekey timer is armed for this very instant. -/
+theorem abandon_restarts (t : TChan) (now : Nat) (e : Entry) :
+    t.chan.next = some e → (t.fireHs now).1.chan.next = none →
+    (e.sess.isInit = true ∨ (t.chan.waiting > 0 ∧ (t.chan.expire now).cur = none)) →
+    (t.fireHs now).1.rekeyAt = some now :=
+  P2PKE.abandon_restarts t now e
+
+/-- ⊢ the rekey callback always leaves a driven prospective session: afterwards there is a prospective session
+    (the one it found, or a fresh initiator session it created) and the handshake timer is armed. -/
+theorem rekey_leaves_driven_session (key : KeyId) (accept : KeyId → Bool) (rj ka ra bo : Nat) (lt : IdLt) (ops : List TOp)
+    (eph now : Nat) :
+    let t := ((TSt.mk (TChan.fresh key accept rj ka ra bo) 0).run lt ops).t
+    (t.fireRekey lt eph now).chan.next.isSome ∧ (t.fireRekey lt eph now).hsAt.isSome :=
+  P2PKE.rekey_leaves_driven_session key accept rj ka ra bo lt ops eph now
+
+/-- ⊢ a stale responder session does not block a Send (the deadlock found by the `ket` oracle, F31): a channel
+    holds only a prospective session `e` that is older than the handshake time-out (say a responder session whose
+    initiator is gone). A caller that starts waiting at `t1` finds it dropped and the rekey timer armed for `t1`;
+    the rekey callback then creates a fresh initiator session and arms the handshake timer to send its InitHello
+    at once. -/
+theorem stale_prospective_does_not_block (t : TChan) (lt : IdLt) (e : Entry) (t1 eph : Nat)
+    (hcur : t.chan.cur = none) (hnext : t.chan.next = some e)
+    (hold : t1 - (e.sess.expiresAt - t.chan.rejectAfter) > t.chan.hsTimeout) :
+    let a := (t.pend t1).1
+    let c := a.fireRekey lt eph t1
+    a.chan.waiting = t.chan.waiting + 1 ∧ a.chan.next = none ∧ a.rekeyAt = some t1 ∧
+    (∃ e', c.chan.next = some e' ∧ e'.sess.isInit = true ∧ e'.sess.eph = eph) ∧ c.hsAt = some t1 :=
+  P2PKE.stale_prospective_does_not_block t lt e t1 eph hcur hnext hold
+
+/-- ⊢ a handshake that does not complete is given up in bounded time: while callers wait and there is no current
+    session, the first handshake callback that runs more than the time-out after the prospective session was
+    created drops it and arms the rekey timer for that instant (the callback runs every backoff while the session
+    is there: `never_stranded`). -/
+theorem stuck_handshake_is_given_up (t : TChan) (e : Entry) (now : Nat)
+    (hcur : t.chan.cur = none) (hnext : t.chan.next = some e) (hw : t.chan.waiting > 0)
+    (hage : now - (e.sess.expiresAt - t.chan.rejectAfter) > t.chan.hsTimeout) :
+    (t.fireHs now).1.chan.next = none ∧ (t.fireHs now).1.rekeyAt = some now :=
+  P2PKE.stuck_handshake_is_given_up t e now hcur hnext hw hage
+
+/-- ⊢ through the timers, from fresh channels (with a handshake backoff that is not zero — otherwise the handshake
+    timer would retransmit within the same instant): a caller starts waiting on A at `t0`; letting the timers run (no
+    time needs to pass: the rekey callback creates the session and arms the handshake timer for the same instant)
+    emits exactly A's InitHello; after two loss-free round trips A has a current session, the caller has
+    returned, A — the initiator — has its rekey timer armed `ra` ahead, and B has a current session too. -/
+theorem pending_send_completes_fresh (kA kB : KeyId) (rj ka ra bo : Nat) (lt : IdLt) (t0 : Nat) (hbo : 0 < bo) :
+    let A0 := TChan.fresh kA (fun k => k == kB) rj ka ra bo
+    let B0 := TChan.fresh kB (fun k => k == kA) rj ka ra bo
+    let A1 := (A0.pend t0).1
+    let adv := A1.advance lt t0 0 4 100
+    A1.chan.waiting = 1 ∧
+    ∃ hello, adv.2.1 = [(t0, hello)] ∧
+      ∃ rh, (B0.deliver lt hello 200 t0).2.sent = some rh ∧
+        ∃ idn, (adv.1.deliver lt rh 300 t0).2.sent = some idn ∧
+          ∃ rd, ((B0.deliver lt hello 200 t0).1.deliver lt idn 400 t0).2.sent = some rd ∧
+            let A4 := ((adv.1.deliver lt rh 300 t0).1.deliver lt rd 500 t0).1
+            let B2 := ((B0.deliver lt hello 200 t0).1.deliver lt idn 400 t0).1
+            A4.chan.cur.isSome ∧ A4.chan.waiting = 0 ∧ A4.rekeyAt = some (t0 + ra) ∧ B2.chan.cur.isSome :=
+  P2PKE.pending_send_completes_fresh kA kB rj ka ra bo lt t0 hbo
 
 end P2PVerif.C07
